@@ -727,6 +727,12 @@ class HeapMixin:
             r = self.extern_obj_truth(ref, o)
             if r is not NotImplemented:
                 return r
+            if o.cls == 'hdrlist':
+                # a (materialised) header list is a container: falsy iff it has no field
+                from .hdrmodel import hl_len
+                return hl_len(o.fields['t']) > 0
+            if isinstance(o.cls, str) and (o.cls.startswith('abs-') or o.cls == 'map-iter'):
+                raise Unsupported('truth value of the abstract container %s' % o.cls)
         return True
 
     def obj_equals(self, a, b):
